@@ -139,9 +139,9 @@ class ParameterTable:
             self._data.append( settings )
         else:
             key, values = args
+            settings = ParameterSettings(dict(zip(self._settings, values)))
             if key not in self._keys:
                 self._keys.append(key)
-            settings = ParameterSettings(dict(zip(self._settings, values)))
             self._data[key] = settings
         
     def data(self):
